@@ -65,12 +65,14 @@ package rgsw
 //@   assigns c0OutQ, c0OutP, c1OutQ, c1OutP
 //@   ensures val(c0OutQ) == uf_ep0q(val(ct0.Value[0]), val(ct0.Value[1]), contentid(rgsw)) && val(c0OutP) == uf_ep0p(val(ct0.Value[0]), val(ct0.Value[1]), contentid(rgsw))
 //@   ensures val(c1OutQ) == uf_ep1q(val(ct0.Value[0]), val(ct0.Value[1]), contentid(rgsw)) && val(c1OutP) == uf_ep1p(val(ct0.Value[0]), val(ct0.Value[1]), contentid(rgsw))
+//@   ensures isntt(c0OutQ) && isntt(c0OutP) && isntt(c1OutQ) && isntt(c1OutP)
 //@ afunc Evaluator.externalProductInPlaceSinglePAndBitDecomp
 //@   trusted opaque at the abstract level (the two inner products, at most one auxiliary modulus, power-of-two digits): writes the two output elements only - four DIFFERENT polynomials (precondition); their values are named as functions of the operands
 //@   requires !same(c0QP.Q, c1QP.Q) && !same(c0QP.P, c1QP.P) && !same(c0QP.Q, c0QP.P) && !same(c1QP.Q, c1QP.P) && !same(c0QP.Q, c1QP.P) && !same(c1QP.Q, c0QP.P)
 //@   assigns c0QP.Q, c0QP.P, c1QP.Q, c1QP.P
 //@   ensures val(c0QP.Q) == uf_ep0q(val(ct0.Value[0]), val(ct0.Value[1]), contentid(rgsw)) && val(c0QP.P) == uf_ep0p(val(ct0.Value[0]), val(ct0.Value[1]), contentid(rgsw))
 //@   ensures val(c1QP.Q) == uf_ep1q(val(ct0.Value[0]), val(ct0.Value[1]), contentid(rgsw)) && val(c1QP.P) == uf_ep1p(val(ct0.Value[0]), val(ct0.Value[1]), contentid(rgsw))
+//@   ensures isntt(c0QP.Q) && isntt(c0QP.P) && isntt(c1QP.Q) && isntt(c1QP.P)
 //@ afunc Evaluator.ExternalProduct
 //@   property C20
 //@   case len(op1.Value[0].Value[0][0][0].P.Coeffs) == 2 && len(op1.Value[0].Value[0][0][0].Q.Coeffs) == 2 && len(op0.Value) == 2 && len(opOut.Value) == 2
@@ -83,6 +85,8 @@ package rgsw
 //@   let g = old(contentid(op1))
 //@   ensures val(opOut.Value[0]) == uf_moddown(uf_ep0q(a0, a1, g), uf_ep0p(a0, a1, g))
 //@   ensures val(opOut.Value[1]) == uf_moddown(uf_ep1q(a0, a1, g), uf_ep1p(a0, a1, g))
+// the product comes back in the domain of the input (finding F83: a coefficient-domain input got an NTT-domain result)
+//@   ensures indom(opOut.Value[0], old(op0.MetaData.CiphertextMetaData.IsNTT)) && indom(opOut.Value[1], old(op0.MetaData.CiphertextMetaData.IsNTT))
 
 // ---- without auxiliary modulus there is no division: the receiver gets the Q parts of the products
 //@ afunc Evaluator.ExternalProduct#noP
